@@ -161,6 +161,11 @@ func (g *matchGen) body(names []string, tag string, block bool) *MatchCase {
 			uses = append(uses, V(n))
 		}
 	}
+	if block && g.rng.IntN(6) == 0 {
+		c.Block = Blk() // an empty block body: the match yields null
+		g.stats["empty-block-body"]++
+		return c
+	}
 	if block {
 		args := append([]Expr{S(tag)}, uses...)
 		for i := 1; i < len(args); i++ {
@@ -201,9 +206,20 @@ func (g *matchGen) cases(target any, tripwires bool) ([]*MatchCase, int, int) {
 				case a == ai:
 					pats = append(pats, g.matching(target, &names))
 				default:
-					if tripwires && g.rng.IntN(2) == 0 {
+					switch k := g.rng.IntN(4); {
+					case tripwires && k == 0:
 						pats = append(pats, S("\\q")) // evaluated only if reached: bad escape
-					} else {
+					case k == 1:
+						// an alternative that would match as well (a catch-all name, or another matching pattern):
+						// the first matching alternative still decides the bindings
+						if g.rng.IntN(2) == 0 {
+							pats = append(pats, V(g.name()))
+						} else {
+							var other []string
+							pats = append(pats, g.matching(target, &other))
+						}
+						g.stats["later-alternative-also-matches"]++
+					default:
 						pats = append(pats, g.nonMatching(target))
 					}
 				}
